@@ -184,11 +184,32 @@ pub fn run(ctx: &mut Ctx) {
                 distinct = distinct (attr, module) text"
         .into();
     let cases = ctx.n(150_000, 3_000_000);
-    run_tapes_par(ctx, 8, cases, 500, one);
+    if run_tapes_par(ctx, 8, cases, 500, one) {
+        e2_leg(ctx);
+    }
 }
 
 pub fn replay(ctx: &mut Ctx, v: &Value) {
     use super::s;
+    if s(v, "engine") == "E2" {
+        let mut b = crate::e2::Batch::new("c08-replay", crate::e2::Opts { members: 1, ..Default::default() });
+        b.add("c00000", s(v, "src"));
+        let out = b.build_and_run();
+        b.cleanup();
+        ctx.count_eval();
+        let compiled = out.compile_failed.is_empty();
+        match (s(v, "expect").as_str(), compiled) {
+            ("rejected", true) => ctx.violation("a non-method is callable through the trait", v),
+            ("rejected", false) => {}
+            (_, false) => ctx.violation("the parent-scope client does not compile", v),
+            (_, true) => {
+                if out.ran.get("c00000").map(|(st, _)| st != "ok").unwrap_or(true) {
+                    ctx.violation("a trait method does not reach its module fn", v);
+                }
+            }
+        }
+        return;
+    }
     let expected = v.get("expected_methods").and_then(|a| a.as_array()).map(|a| a.iter().filter_map(|x| x.as_str().map(String::from)).collect()).unwrap_or_default();
     let c = Case { macro_name: s(v, "macro"), attr: s(v, "attr"), item: s(v, "item"), trait_name: s(v, "trait_name"), trait_vis: s(v, "trait_vis"), expected, nontrivial: true };
     ctx.count_eval();
@@ -197,4 +218,131 @@ pub fn replay(ctx: &mut Ctx, v: &Value) {
         Err(e) if e.starts_with("HARNESS") => crate::ev::inconclusive(&e),
         Err(e) => ctx.violation(&e, v),
     }
+}
+
+// ---------- E2 leg: the trait is importable from the parent scope and has exactly the expected methods ----------
+
+struct E2Mod {
+    src: String,
+    expected: Vec<(String, String)>, // (name, qualifiers)
+    not_methods: Vec<String>,
+    summary: String,
+}
+
+fn e2_module(t: &mut Tape) -> E2Mod {
+    const QUALS: [&str; 6] = ["", "async ", "unsafe ", "extern \"C\" ", "async unsafe ", "unsafe extern \"C\" "];
+    const VIS: [&str; 3] = ["pub ", "pub(crate) ", "pub(super) "];
+    let n = t.range(1, 7);
+    let mut items = vec![];
+    let mut expected = vec![];
+    let mut not_methods = vec![];
+    for i in 0..n {
+        match t.weighted(&[5, 2, 5]) {
+            0 => {
+                let q = QUALS[t.weighted(&[5, 2, 1, 1, 1, 1])];
+                let v = VIS[t.weighted(&[4, 2, 1])];
+                items.push(format!("    {v}{q}fn vis{i}(_deps: &impl ::core::any::Any) -> u32 {{ {} }}", 100 + i));
+                expected.push((format!("vis{i}"), q.to_string()));
+            }
+            1 => {
+                items.push(format!("    fn priv{i}(_deps: &impl ::core::any::Any) -> u32 {{ {} }}", 200 + i));
+                not_methods.push(format!("priv{i}"));
+            }
+            _ => {
+                let decoys = [
+                    format!("    pub struct H{i} {{ pub f: fn() -> u32 }}"),
+                    format!("    pub struct I{i}; impl I{i} {{ pub fn inherent{i}(_deps: &impl ::core::any::Any) -> u32 {{ 1 }} }}"),
+                    format!("    pub mod inner{i} {{ pub fn nested{i}(_deps: &impl ::core::any::Any) -> u32 {{ 1 }} }}"),
+                    format!("    extern \"C\" {{ pub fn c_fn{i}(x: i32) -> i32; }}"),
+                    format!("    macro_rules! mk{i} {{ () => {{ pub fn from_macro{i}(_deps: &impl ::core::any::Any) -> u32 {{ 1 }} }}; }}\n    mk{i}!();"),
+                    format!("    const _: () = {{ pub fn in_const{i}(_deps: &impl ::core::any::Any) -> u32 {{ 1 }} }};"),
+                    format!("    pub static P{i}: fn() -> u32 = {{ fn f() -> u32 {{ 7 }} f }};"),
+                    format!("    pub type Alias{i} = fn(u32) -> u32;"),
+                    format!("    pub trait Other{i} {{ fn required{i}(&self); fn provided{i}(&self) {{}} }}"),
+                ];
+                let k = t.choose(decoys.len());
+                for nm in ["inherent", "nested", "c_fn", "from_macro", "in_const", "required", "provided"] {
+                    if decoys[k].contains(&format!("fn {nm}{i}")) {
+                        not_methods.push(format!("{nm}{i}"));
+                    }
+                }
+                items.push(decoys[k].clone());
+            }
+        }
+    }
+    let tvis = ["", "pub ", "pub(crate) "][t.choose(3)];
+    let src = format!("#[::entrait::entrait({tvis}TheTrait)]\n{}mod m {{\n{}\n}}\n", ["", "pub ", "pub(crate) "][t.choose(3)], items.join("\n"));
+    let summary = format!("#[entrait({tvis}TheTrait)] mod m {{ {} }}", items.iter().map(|s| s.trim().to_string()).collect::<Vec<_>>().join(" "));
+    E2Mod { src, expected, not_methods, summary }
+}
+
+pub fn e2_leg(ctx: &mut Ctx) -> bool {
+    use crate::e2::{Batch, Opts};
+    let n = ctx.n(200, 3000) as usize;
+    let tapes = crate::drive::gen_tapes(ctx.seed, 800, n, 64);
+    let mods: Vec<E2Mod> = tapes.iter().map(|tp| e2_module(&mut Tape::new(tp))).collect();
+    let mut batch = Batch::new("c08-e2", Opts { feature_unimock: false, members: 16, ..Default::default() });
+    // positive programs: the parent scope names the trait by its short name and calls every expected method;
+    // negative programs (every 4th module; all of them in the thorough tier): one non-method must not be callable through the trait
+    let mut negatives: Vec<(String, usize, String)> = vec![];
+    let mut positives: Vec<String> = vec![];
+    for (i, m) in mods.iter().enumerate() {
+        let mut src = String::from("#![allow(warnings)]\nuse crate::rt;\npub struct App;\n");
+        src.push_str(&m.src);
+        src.push_str("pub fn run() -> Vec<String> {\n    let mut fails = vec![];\n    let app = ::entrait::Impl::new(App);\n    fn names_the_trait<T: TheTrait>(_: &T) {}\n    names_the_trait(&app);\n");
+        for (k, (name, q)) in m.expected.iter().enumerate() {
+            let call = format!("<::entrait::Impl<App> as TheTrait>::{name}(&app)");
+            let call = if q.contains("unsafe") { format!("unsafe {{ {call} }}") } else { call };
+            let call = if q.contains("async") { format!("rt::block_on({call})") } else { call };
+            let idx: usize = name[3..].parse().unwrap_or(0);
+            let _ = k;
+            src.push_str(&format!("    rt::expect_eq(&mut fails, \"{name}\", &{call}, &{}u32);\n", 100 + idx));
+        }
+        src.push_str("    fails\n}\n");
+        batch.add(&format!("c{i:05}"), src.clone());
+        positives.push(src.clone());
+        if (!ctx.quick() || i % 4 == 0) && !m.not_methods.is_empty() {
+            let nm = &m.not_methods[i % m.not_methods.len()];
+            let neg = src.replace("    fails\n}\n", &format!("    let _ = <::entrait::Impl<App> as TheTrait>::{nm};\n    fails\n}}\n"));
+            batch.add(&format!("n{i:05}"), neg.clone());
+            negatives.push((format!("n{i:05}"), i, neg));
+        }
+    }
+    let out = batch.build_and_run();
+    batch.cleanup();
+    super::common::crosscheck_records(ctx, &out.records);
+    for (i, m) in mods.iter().enumerate() {
+        let id = format!("c{i:05}");
+        ctx.count_eval();
+        if let Some(d) = out.compile_failed.get(&id) {
+            ctx.violation(
+                &format!(
+                    "the parent scope cannot import the trait / call every non-private fn as a method: {} -- {}",
+                    d.first().map(|x| format!("{} {}", x.code, x.message)).unwrap_or_default(),
+                    m.summary
+                ),
+                &json!({"engine": "E2", "summary": m.summary, "expect": "ok", "src": positives[i]}),
+            );
+            return false;
+        }
+        if let Some((status, msg)) = out.ran.get(&id) {
+            if status != "ok" {
+                ctx.violation(&format!("a trait method does not reach its module fn: {msg} -- {}", m.summary), &json!({"engine": "E2", "summary": m.summary, "expect": "ok", "src": positives[i]}));
+                return false;
+            }
+        }
+        ctx.class("e2:parent_scope_client");
+    }
+    for (id, i, neg_src) in &negatives {
+        ctx.count_eval();
+        if !out.compile_failed.contains_key(id) {
+            ctx.violation(
+                &format!("a private / nested / macro-generated fn is callable as a trait method -- {}", mods[*i].summary),
+                &json!({"engine": "E2", "summary": mods[*i].summary, "expect": "rejected", "src": neg_src}),
+            );
+            return false;
+        }
+        ctx.class("e2:non_method_rejected");
+    }
+    true
 }
